@@ -138,8 +138,11 @@ def representation_updates() -> List[tuple]:
     text and another context digest: 3 -> 3.0, True -> 1.0, "3.0" -> 3.0) has been updated; a key overwritten with the
     very same value has not.  (The models carry numbers as one sort, so this dimension is decided here: two nodes,
     [source(v), probe -> a], over pairs (old value of a, v); -0.0 vs 0.0 is left unspecified.)"""
+    from .. import seams
     from ..traced import run_traced
 
+    seams.setup()
+    compared = 0
     bad: List[tuple] = []
     pairs = [(3, 3.0, True), (3.0, 3.0, False), (1000, 1000.0, True), (True, 1.0, True), (1, 1.0, True), (0, 0.0, True),
              ("3.0", 3.0, True), ([3.0], 3.0, True), (2 ** 53 + 1, float(2 ** 53), True), (2.5, 2.5, False), (None, 3.0, True)]
@@ -152,12 +155,15 @@ def representation_updates() -> List[tuple]:
             sers = [r for r in obs["records"] if r.get("record_type") == "ser"]
             if obs["raised"] is not None or len(sers) != 3:
                 continue    # stream shape / failures are C06's business
+            compared += 1
             for i, want in ((1, ["a"] if changed else []), (2, [])):
                 cd = sers[i].get("context_delta", {})
                 if sorted(cd.get("updated_keys", [])) != want or cd.get("created_keys", []) != []:
                     bad.append((f"updated:representation:{type(old).__name__}->{type(new).__name__}",
                                 f"context a={old!r} overwritten with {new!r} by node {i + 1}: SER says created={cd.get('created_keys')} "
                                 f"updated={cd.get('updated_keys')}, the actual difference is updated={want}"))
+    if compared < len(pairs):
+        raise core.MachineryError(f"vacuity: only {compared} of {2 * len(pairs)} representation runs produced three SERs")
     return bad
 
 
